@@ -4,8 +4,15 @@
 EXTENDS ExtTree, Json
 CONSTANTS MaxLen, D, Neg, WithAttr,
           WithTrunc          \* include Truncate(p, n) for n around 0, the block boundary and the current length
-VARIABLES hist, tag
-gvars == <<vars, hist, tag>>
+VARIABLES hist, tag,
+          held        \* the file a write handle is being kept open on ("none": no handle is kept)
+gvars == <<vars, hist, tag, held>>
+\* Handles that stay open ACROSS other calls (as in FatTree_Gen): Hold(p) opens a read-write handle on p and
+\* keeps it; the next WriteAt / Append to p goes through it (log field held = TRUE) and closes it.  In
+\* between, the attribute setters may be called on p itself: what they set must survive the write through
+\* the older handle.  The file is not removed or truncated while its handle is kept.
+NoHold == held = "none"
+Via(p) == held = p
 Offs(p) == {0, 1, 3, 4, 5} \cup {Len(tree[p].data), Len(tree[p].data) + 1}
 Lens == {1, 3, 4, 5}
 Log(r) == hist' = Append(hist, r)
@@ -14,31 +21,34 @@ Modes == {"0644", "0755", "4711", "2070", "1777", "0000", "7777"}      \* 4 octa
 Ids   == {"0", "1000", "65535", "65536", "4294967295"}
 Times == {"1", "86399", "315532800", "2147483647", "2147483648", "4294967296"}   \* seconds since 1970 (classes around 1980/2038/2106)
 Targets == {"t1", "t59", "t60", "t61", "t255", "t4095", "abs"}
-Init == tree = [p \in Paths |-> None] /\ attr = [p \in Paths |-> NoAttr] /\ out = "ok" /\ tag = 1 /\ hist = <<>>
+Init == tree = [p \in Paths |-> None] /\ attr = [p \in Paths |-> NoAttr] /\ out = "ok" /\ tag = 1 /\ hist = <<>> /\ held = "none"
 Next ==
   /\ Len(hist) < D
-  /\ \/ \E p \in Dirs : (Neg \/ ~Exists(p)) /\ Go(CanMkdir(p), MkdirT(p)) /\ Log([a |-> "Mkdir", p |-> p]) /\ UNCHANGED tag
-     \/ \E p \in Files : (Neg \/ CanCreate(p)) /\ ~Exists(p) /\ Go(CanCreate(p), CreateT(p)) /\ Log([a |-> "Create", p |-> p]) /\ UNCHANGED tag
+  /\ \/ \E p \in Dirs : (Neg \/ ~Exists(p)) /\ Go(CanMkdir(p), MkdirT(p)) /\ Log([a |-> "Mkdir", p |-> p]) /\ UNCHANGED <<tag, held>>
+     \/ \E p \in Files : (Neg \/ CanCreate(p)) /\ ~Exists(p) /\ Go(CanCreate(p), CreateT(p)) /\ Log([a |-> "Create", p |-> p]) /\ UNCHANGED <<tag, held>>
+     \/ \E p \in Files : NoHold /\ IsFile(p) /\ held' = p /\ Go(TRUE, tree) /\ Log([a |-> "Hold", p |-> p]) /\ UNCHANGED tag
      \/ \E p \in Files : CanWrite(p) /\ \E off \in Offs(p), len \in Lens :
            /\ off + len <= MaxLen
-           /\ Go(TRUE, WriteT(p, off, len, tag)) /\ Log([a |-> "WriteAt", p |-> p, off |-> off, len |-> len, tag |-> tag]) /\ tag' = tag + 1
+           /\ Go(TRUE, WriteT(p, off, len, tag)) /\ Log([a |-> "WriteAt", p |-> p, off |-> off, len |-> len, tag |-> tag, held |-> Via(p)]) /\ tag' = tag + 1
+           /\ held' = (IF Via(p) THEN "none" ELSE held)
      \/ \E p \in Files : CanWrite(p) /\ \E len \in {1, 4, 5} :
            /\ Len(tree[p].data) + len <= MaxLen
-           /\ Go(TRUE, AppendT(p, len, tag)) /\ Log([a |-> "Append", p |-> p, len |-> len, tag |-> tag]) /\ tag' = tag + 1
+           /\ Go(TRUE, AppendT(p, len, tag)) /\ Log([a |-> "Append", p |-> p, len |-> len, tag |-> tag, held |-> Via(p)]) /\ tag' = tag + 1
+           /\ held' = (IF Via(p) THEN "none" ELSE held)
      \/ /\ WithTrunc
         /\ \E p \in Files : CanWrite(p) /\ \E n \in {0, 1, CU, Len(tree[p].data) - 1, Len(tree[p].data) + 1, Len(tree[p].data) + CU + 1} :
               /\ n >= 0 /\ n <= MaxLen + CU + 1 /\ n # Len(tree[p].data)
-              /\ Go(TRUE, TruncateT(p, n)) /\ Log([a |-> "Truncate", p |-> p, off |-> n]) /\ UNCHANGED tag
-     \/ \E p \in Links, t \in Targets : (Neg \/ CanSymlink(p)) /\ Go(CanSymlink(p), SymlinkT(p, t)) /\ Log([a |-> "Symlink", p |-> p, t |-> t]) /\ UNCHANGED tag
-     \/ \E p \in Paths : (CanRemove(p) \/ (Neg /\ p \in {"d", "a"})) /\ Go(CanRemove(p), RemoveT(p)) /\ Log([a |-> "Remove", p |-> p]) /\ UNCHANGED tag
+              /\ p # held /\ Go(TRUE, TruncateT(p, n)) /\ Log([a |-> "Truncate", p |-> p, off |-> n]) /\ UNCHANGED <<tag, held>>
+     \/ \E p \in Links, t \in Targets : (Neg \/ CanSymlink(p)) /\ Go(CanSymlink(p), SymlinkT(p, t)) /\ Log([a |-> "Symlink", p |-> p, t |-> t]) /\ UNCHANGED <<tag, held>>
+     \/ \E p \in Paths : p # held /\ (CanRemove(p) \/ (Neg /\ p \in {"d", "a"})) /\ Go(CanRemove(p), RemoveT(p)) /\ Log([a |-> "Remove", p |-> p]) /\ UNCHANGED <<tag, held>>
      \/ /\ WithAttr
         /\ \E p \in Files \cup Dirs : CanAttr(p) /\
               \/ \E m \in Modes : Go(TRUE, tree) /\ Log([a |-> "Chmod", p |-> p, v |-> m])
               \/ \E u \in Ids, g \in {"0", "4294967295"} : Go(TRUE, tree) /\ Log([a |-> "Chown", p |-> p, v |-> u, w |-> g])
               \/ \E t \in Times : Go(TRUE, tree) /\ Log([a |-> "Chtimes", p |-> p, v |-> t, w |-> "1000000000"])
-        /\ UNCHANGED tag
-     \/ /\ Neg /\ ~Exists("b") /\ Go(FALSE, tree) /\ Log([a |-> "WriteAt", p |-> "b", off |-> 0, len |-> 1, tag |-> tag]) /\ tag' = tag + 1
+        /\ UNCHANGED <<tag, held>>
+     \/ /\ Neg /\ ~Exists("b") /\ Go(FALSE, tree) /\ Log([a |-> "WriteAt", p |-> "b", off |-> 0, len |-> 1, tag |-> tag, held |-> FALSE]) /\ tag' = tag + 1 /\ UNCHANGED held
 Spec == Init /\ [][Next]_gvars
 Emit == (Len(hist) = D) => PrintT(<<"BEH", ToJson(hist)>>)
-View == <<tree, hist>>
+View == <<tree, hist, held>>
 ===============================================================================
